@@ -169,3 +169,4 @@ import models_std      # noqa
 import models_fmt      # noqa
 import models_regex    # noqa
 import models_chrono   # noqa
+import models_json     # noqa
